@@ -36,24 +36,25 @@ type blkOp struct {
 // context.WithTimeout(ctx, X.timeout) in body.
 func timeoutCtxPositions(body *ast.BlockStmt) []token.Pos {
 	var ps []token.Pos
-	ast.Inspect(body, func(n ast.Node) bool {
-		as, ok := n.(*ast.AssignStmt)
+	// only UNCONDITIONAL rebinding counts: a statement directly in the function body (a timeout that
+	// is applied under an `if` does not bound the operation in every configuration)
+	for _, st := range body.List {
+		as, ok := st.(*ast.AssignStmt)
 		if !ok || len(as.Rhs) != 1 || len(as.Lhs) != 2 {
-			return true
+			continue
 		}
 		if id, ok := as.Lhs[0].(*ast.Ident); !ok || id.Name != "ctx" {
-			return true
+			continue
 		}
 		call, ok := as.Rhs[0].(*ast.CallExpr)
 		if !ok || show(call.Fun) != "context.WithTimeout" || len(call.Args) != 2 {
-			return true
+			continue
 		}
 		if show(call.Args[0]) != "ctx" || !strings.HasSuffix(show(call.Args[1]), ".timeout") {
-			return true
+			continue
 		}
 		ps = append(ps, as.End())
-		return true
-	})
+	}
 	return ps
 }
 
